@@ -135,6 +135,19 @@ def wf_wait(requirements: bool) -> Any:
     return make_workflow("Wait", [make_step("ask", [StartEvent], [StopEvent], ask)])
 
 
+def wf_wait_busy() -> Any:
+    """a waiter plus a step that keeps the run busy: the handler is never flagged idle, so the startup resume picks it up"""
+    async def ask(self, ctx, ev, inv):  # noqa: ANN001
+        r = await ctx.wait_for_event(Resp, waiter_id="w1", waiter_event=Ask(uid=1))
+        return StopEvent(result=f"wait:{r.key}:{r.uid}")
+
+    async def keeper(self, ctx, ev, inv):  # noqa: ANN001
+        await gate("keeper")
+        return None
+
+    return make_workflow("WaitBusy", [make_step("ask", [StartEvent], [StopEvent], ask), make_step("keeper", [StartEvent], [None], keeper)])
+
+
 def wf_fail() -> Any:
     async def bad(self, ctx, ev, inv):  # noqa: ANN001
         await gate("bad")
@@ -166,6 +179,8 @@ PROGRAMS: dict[str, dict[str, Any]] = {
     # runs that end otherwise than by a StopEvent: the persisted end must be finalized with the matching status
     "fail": {"make": wf_fail, "expected": None, "expected_status": "failed", "responses": []},
     "cancel": {"make": wf_cancellable, "expected": "work:done", "responses": [], "cancel": True},
+    # the client answers only after the restart, at any point of the new process's start-up
+    "wait_busy_answer_after_restart": {"make": wf_wait_busy, "expected": "wait:any:100", "responses": [("any", 100)], "answer_after_restart": True},
 }
 
 
@@ -210,7 +225,9 @@ def _resp_persisted(ticks: list[dict[str, Any]], uid: int) -> bool:
     return False
 
 
-def execute(ex: Execution, pname: str, backend: str, crash_at: int | None) -> tuple[Any, list[Any]]:
+def execute(ex: Execution, pname: str, backend: str, crash_at: int | None, network: bool = False) -> tuple[Any, list[Any]]:
+    """``network``: the second process reads the store like a network-backed one (Postgres, agent-data) - reading a
+    handler row or the tick log suspends, so client requests can arrive while the start-up resume is under way"""
     prog = PROGRAMS[pname]
     sh.clear_graveyard()
     sh.reset_ids()
@@ -219,6 +236,7 @@ def execute(ex: Execution, pname: str, backend: str, crash_at: int | None) -> tu
     ctl = sh.CrashControl(crash_at)
     v: list[Any] = []
     w = {"program": pname, "backend": backend}
+    late = bool(prog.get("answer_after_restart"))
     # ---------------- phase 1: the first process
     e = EngineExec(ex, RunConfig(max_actions=120, allow_time=False))
     e.__enter__()
@@ -239,7 +257,7 @@ def execute(ex: Execution, pname: str, backend: str, crash_at: int | None) -> tu
                 await stack.service.start_workflow(wf, "h1", StartEvent())
 
             e.loop.create_task(boot())
-            for key, uid in prog["responses"]:
+            for key, uid in ([] if (late and crash_at is not None) else prog["responses"]):
                 def _send(key: str = key, uid: int = uid) -> None:
                     ext_sends["n"] += 1
                     e.loop.create_task(stack.service.send_event("h1", Resp(uid=uid, key=key)))
@@ -267,6 +285,8 @@ def execute(ex: Execution, pname: str, backend: str, crash_at: int | None) -> tu
     # ---------------- phase 2: a fresh process on the surviving store
     ctl.disarm(store)
     store2 = store if backend == "memory" else SqliteWorkflowStore(path, poll_interval=1.0, auto_migrate=False)
+    if network:
+        sh.make_yielding(store2, ticks=True)
     loop2 = VLoop()
     loop2.vt = vt
     obs: dict[str, Any] = {}
@@ -307,6 +327,8 @@ def execute(ex: Execution, pname: str, backend: str, crash_at: int | None) -> tu
         nonmatching_in_log = pname == "wait_requirements" and _resp_persisted(ticks, 100)
         wk = {"program": pname, "log_already_terminal": ended, "lost_at_crash": lost, "handler_marked_idle_at_crash": idle_flag,
               "nonmatching_response_in_log": nonmatching_in_log}
+        if network:
+            wk["store_reads_suspend"] = True
         desc = (f"[{backend}] {pname}: process stopped after persisted tick {crash_at} (a {last.get('type')} tick) "
                 f"({[t.get('type') for t in ticks][-3:]} ...), restarted; schedule {ex.labels}")
         want_status, want_result = prog.get("expected_status", "completed"), prog["expected"]
@@ -338,6 +360,14 @@ def programs(tier: str) -> list[Program]:
                 ps.append(Program(f"{pname}/{backend}/crash_after_tick_{k:02d}", {"program": pname, "backend": backend, "crash_at": k},
                                   (lambda ex, pname=pname, backend=backend, k=k: execute(ex, pname, backend, k)),
                                   max_dev=(1 if q else 2)))
+    # a network-backed store: reading suspends, so the client's answer can arrive at any point of the start-up resume
+    for pname in ("wait_busy_answer_after_restart",):
+        for backend in ("memory", "sqlite"):
+            for k in range(1, 8):
+                ps.append(Program(f"{pname}/{backend}/network_store/crash_after_tick_{k:02d}",
+                                  {"program": pname, "backend": backend, "crash_at": k, "network": True},
+                                  (lambda ex, pname=pname, backend=backend, k=k: execute(ex, pname, backend, k, network=True)),
+                                  max_dev=(2 if q else 4)))
     return ps
 
 
